@@ -751,6 +751,7 @@ def write_pbm(matrix, matrix_size, out, scale=1, border=None, plain=False):
         return (reduce(lambda x, y: (x << 1) + y, e)
                 for e in zip_longest(*[iter(iterable)] * 8, fillvalue=0x0))
 
+    scale = int(scale)
     width, height, border = _valid_width_height_and_border(matrix_size, scale, border)
     row_iter = matrix_iter(matrix, matrix_size, scale, border)
     with writable(out, 'wb') as f:
@@ -798,6 +799,7 @@ def write_pam(matrix, matrix_size, out, scale=1, border=None, dark='#000', light
 
     if not dark:
         raise ValueError(f'Invalid stroke color "{dark}"')
+    scale = int(scale)
     width, height, border = _valid_width_height_and_border(matrix_size, scale, border)
     row_iter = matrix_iter(matrix, matrix_size, scale, border)
     depth, maxval, tuple_type = 1, 1, 'BLACKANDWHITE'
@@ -892,6 +894,7 @@ def write_xpm(matrix, matrix_size, out, scale=1, border=None, dark='#000',
     :param str name: Name of the image (must be a valid C-identifier).
             Default: "img".
     """
+    scale = int(scale)
     width, height, border = _valid_width_height_and_border(matrix_size, scale, border)
     row_iter = matrix_iter(matrix, matrix_size, scale, border)
     stroke_color = color_to_rgb_hex(dark) if dark is not None else 'None'
@@ -925,6 +928,7 @@ def write_xbm(matrix, matrix_size, out, scale=1, border=None, name='img'):
                  The prefix is used to construct the variable names:
                  ```#define <prefix>_width``` ```static unsigned char <prefix>_bits[]```
     """
+    scale = int(scale)
     width, height, border = _valid_width_height_and_border(matrix_size, scale, border)
     row_iter = matrix_iter(matrix, matrix_size, scale, border)
     with writable(out, 'wt') as f:
